@@ -42,8 +42,9 @@ TEntries(k, s, m, sig) ==
     IN  IF ~hs.ok \/ ~kp.ok THEN {}
         ELSE LET L == Len(hs.sigs)
                  Iof(i) == IF i = 1 THEN TopSeed(s.alg, kp.seed).I ELSE hs.pubs[i - 1].parsed.I
+             (* what a one-time key signs is the digest of (randomizer C, content): the randomizer is part of it *)
              IN  {[ots |-> <<Iof(i), hs.sigs[i].q>>,
-                   content |-> IF i = L THEN <<"msg", m>> ELSE <<"pub", hs.pubs[i].bytes>>] : i \in 1..L}
+                   content |-> IF i = L THEN <<"msg", hs.sigs[i].C, m>> ELSE <<"pub", hs.sigs[i].C, hs.pubs[i].bytes>>] : i \in 1..L}
 
 KeyIds == {Rec[i].k : i \in {j \in 1..Len(Rec) : "k" \in DOMAIN Rec[j]}}
 MsgSet == {B(Rec[i].msg) : i \in {j \in 1..Len(Rec) : Rec[j].ev = "sign"}} \cup {<<>>}
@@ -174,11 +175,24 @@ EvReset ==
 
 (* events the protocol model has no action for: judged by the data layer only *)
 EvOther ==
-    /\ E.ev \in {"verify", "hook", "info", "hang", "sign_mut", "skip"} \/ (E.ev \in {"sign", "load", "persist"} /\ "k" \notin DOMAIN E)
+    /\ E.ev \in {"verify", "hook", "info", "hang", "skip"} \/ (E.ev \in {"sign", "load", "persist"} /\ "k" \notin DOMAIN E)
+       \/ (E.ev = "sign_mut" /\ ("k" \notin DOMAIN E \/ E.res # "ok"))
     /\ call.pc = "idle"
     /\ LET j == Judge(E, cache) IN cache' = j.c /\ Advance(j.v \o (IF E.ev = "sign" THEN DetVerdict(E) ELSE <<>>))
     /\ resultOf' = IF E.ev = "sign" THEN RecordResult(E) ELSE resultOf
     /\ UNCHANGED <<avars, base>>
+
+(* sign_mut (fast_verify) released a signature: judged by the data layer; the one-time keys it used enter the ghost *)
+(* `released` like those of any other signature (the protocol steps of the call are those of sign)               *)
+EvSignMut ==
+    /\ E.ev = "sign_mut" /\ "k" \in DOMAIN E /\ E.res = "ok" /\ call.pc = "idle"
+    /\ LET j == Judge(E, cache) IN
+       /\ cache' = j.c
+       /\ released' = released \cup TEntries(E.k, KS(E.alg, B(E.key)), B(E.msg_out), B(E.sig))
+       /\ l' = l + 1
+       /\ bad' = bad \o Tag(j.v \o InvVerdicts \o (IF \A a \in released', b \in released' : a.ots = b.ots => a.content = b.content
+                                                    THEN <<>> ELSE <<[kind |-> "invariant_NoReuse", exp |-> TRUE, got |-> FALSE]>>), l)
+    /\ UNCHANGED <<store, mem, latest, call, nAcc, watch, lastRet, resultOf, base>>
 
 (* ---- a sign event, replayed step by step ---- *)
 SignStart ==
@@ -230,7 +244,7 @@ FinishApi ==
 
 NextApi ==
     \/ /\ l <= Len(Rec)
-       /\ \/ EvReset \/ EvKeygen \/ EvLoad \/ EvPersist \/ EvCrash \/ EvLifetime \/ EvOther
+       /\ \/ EvReset \/ EvKeygen \/ EvLoad \/ EvPersist \/ EvCrash \/ EvLifetime \/ EvOther \/ EvSignMut
           \/ SignStart \/ SignInternal \/ SignCallback \/ SignReturn
     \/ FinishApi
 
